@@ -82,7 +82,7 @@ PROPS = {
     },
     "C06": {
         "title": "Over the network SET/GET/DEL answer exactly as the map model, in order",
-        "rules": [k2s.p11_command_application, k2s.p12_handler_loop, k4.v2_parse_frame, k4.v3_read_frame_eof, k4.v6_write_frame_flushes, k3.s9_command_table, k2.p6b_pool_filled, k2.p3_publish_after_append, k2.p18_handle_delegation, k8.s9b_client_encoders, k8.v7_argument_parsers, k9.s19_value_transparency, k9.s20_client_response_mapping, k9.s18_encoder_sequence, k9.s21_forwarding, k9.b1_server_binary_lifetime, k9.s23_argument_errors_reject, k1.w5_permit_ops, k10.v9_no_size_limit],
+        "rules": [k2s.p11_command_application, k2s.p12_handler_loop, k4.v2_parse_frame, k4.v3_read_frame_eof, k4.v6_write_frame_flushes, k3.s9_command_table, k2.p6b_pool_filled, k2.p3_publish_after_append, k2.p18_handle_delegation, k8.s9b_client_encoders, k8.v7_argument_parsers, k9.s19_value_transparency, k9.s20_client_response_mapping, k9.s18_encoder_sequence, k9.s21_forwarding, k9.b1_server_binary_lifetime, k9.s23_argument_errors_reject, k1.w5_permit_ops, k10.v9_no_size_limit, k8.p20_shutdown_helper],
         "decides": "one reply per applied command, after the storage call completed, none on error paths, with the prescribed variant and the stored bytes; DEL counts Ok(true); the connection loop is read→parse→apply→reply; Incomplete ⇒ read more; exactly the checked length is consumed on every path and the read buffer is never replaced; every reply is flushed unconditionally; command names matched by full equality; DEL processes every key; arguments: only bulk strings, list ends only when exhausted, GET/SET reject trailing arguments; delete reports presence from under the writer lock; client encoders use the dispatched literals; no partial writes; Ok(None) only on Incomplete; values are carried as the bytes received (Set takes its value from get_bytes, apply passes the command's own key/value, GET replies with the store's bytes); the client writes its request before reading one response and maps replies per command; the encoder emits the RESP sequence per frame kind; the KeyValueStorage impl maps set/get/del to put/get/delete; the server binary keeps the store open while serving; argument errors reject the whole command; a connection slot is released in Handler's Drop on every way a handler ends (errors included), so later connections are still accepted and answered; the socket is read only after the buffered bytes were tried (requests that arrive in one segment are all answered); the parser compares an announced length only with the bytes at hand or 0/-1 (no size limit of its own: a large value is not refused)",
         "not_decided": "byte-for-byte value equality and segmentation independence as observed behaviour",
     },
@@ -155,8 +155,8 @@ PROPS = {
     },
     "C18": {
         "title": "Background merge and sync follow the configured policy",
-        "rules": [k4.v4_never_policy, k2s.p15_interval_loops, k2.p19_sync_chain, k1.w6_merge_sync_entry, k3.s5_trigger_threshold_roles, k8.v4b_window_policy, k8.s12_config_setters, k9.s13_counter_arithmetic, k9.s12b_config_keys, k10.s12c_shipped_config_agrees, k10.s12d_env_separator],
-        "decides": "Never ⇒ no path to merge; merge only behind can_merge()==true; triggers decide whether, thresholds decide which, like compared with like in the selecting direction; each tick of the sync loop reaches the fsync; periodic sync exactly under IntervalMs with its period; the Window policy compares the hour with start (<) and end (>); Config setters and the file-then-environment source order take effect; the jitter sampler accepts a zero-width range; fragmentation() is dead/(dead+live) and 0 without dead keys (what the triggers compare); every configuration field can be set under its own name from a file or the environment; every key the shipped config.toml sets or documents resolves against the derived decoders, and the environment separator splits no key name (a setting given is a setting in force)",
+        "rules": [k4.v4_never_policy, k2s.p15_interval_loops, k2.p19_sync_chain, k1.w6_merge_sync_entry, k3.s5_trigger_threshold_roles, k8.v4b_window_policy, k8.s12_config_setters, k9.s13_counter_arithmetic, k9.s12b_config_keys, k10.s12c_shipped_config_agrees, k10.s12d_env_separator, k10.u1_duration_units],
+        "decides": "Never ⇒ no path to merge; merge only behind can_merge()==true; triggers decide whether, thresholds decide which, like compared with like in the selecting direction; each tick of the sync loop reaches the fsync; periodic sync exactly under IntervalMs with its period; the Window policy compares the hour with start (<) and end (>); Config setters and the file-then-environment source order take effect; the jitter sampler accepts a zero-width range; fragmentation() is dead/(dead+live) and 0 without dead keys (what the triggers compare); every configuration field can be set under its own name from a file or the environment; every key the shipped config.toml sets or documents resolves against the derived decoders, and the environment separator splits no key name (a setting given is a setting in force); a period read from a setting named in milliseconds is built with Duration::from_millis (unit agreement by name)",
         "not_decided": "timing ('within one interval plus jitter')",
     },
     "C19": {
